@@ -69,7 +69,9 @@ def validate_multi(ctx, module, trace_path, reset_ev="new", cfg=None, timeout=90
         start = consumed
         while start > 0 and json.loads(cur[start]).get("ev") != reset_ev:
             start -= 1
-        rejects.append((base + consumed, ev, [json.loads(x) for x in cur[start:consumed]][-12:]))
+        ctxev = [json.loads(x) for x in cur[start:consumed]]
+        # keep the opening (reset) event of the trace plus the last events before the failing one
+        rejects.append((base + consumed, ev, (ctxev[:1] + ctxev[1:][-11:]) if ctxev else []))
         nxt = consumed + 1
         while nxt < len(cur) and json.loads(cur[nxt]).get("ev") != reset_ev:
             nxt += 1
